@@ -88,6 +88,29 @@ def provenance(mod, func, name, depth=0):
     return out
 
 
+def _host_operator_table_call(mod, func, call, callee):
+    """the callee is TABLE[key] / TABLE.get(key) (directly or through a local) where TABLE is a module-level dict whose values are all operator.* / math.* functions, builtins or lambdas"""
+    def table_of(e, depth=0):
+        if isinstance(e, ast.Subscript) and isinstance(e.value, ast.Name):
+            return e.value.id
+        if isinstance(e, ast.Call) and isinstance(e.func, ast.Attribute) and e.func.attr == 'get' and isinstance(e.func.value, ast.Name):
+            return e.func.value.id
+        if isinstance(e, ast.Name) and depth < 2:
+            defs = [a.value for a in walk_no_nested(func) if isinstance(a, ast.Assign) and len(a.targets) == 1 and isinstance(a.targets[0], ast.Name) and a.targets[0].id == e.id]
+            tabs = {table_of(d, depth + 1) for d in defs}
+            return tabs.pop() if len(tabs) == 1 else None
+        return None
+    t = table_of(call.func)
+    if not t or t not in mod.assigns or len(mod.assigns[t]) != 1 or not isinstance(mod.assigns[t][0], ast.Dict):
+        return False
+    for v in mod.assigns[t][0].values:
+        ok = (isinstance(v, ast.Attribute) and isinstance(v.value, ast.Name) and v.value.id in ('operator', 'math')) or isinstance(v, ast.Lambda) or \
+            (isinstance(v, ast.Name) and v.id in ('abs', 'min', 'max', 'pow', 'divmod', 'round'))
+        if not ok:
+            return False
+    return True
+
+
 def check_wrapper(chk):
     mod = chk.repo.module('runtime')
     n_fv = 0
@@ -110,6 +133,9 @@ def check_wrapper(chk):
                 continue
             if is_option_cb:
                 chk.ok('C05.W', f'{fname}: {norm(call)[:60]} is a host option callback (logFn/urlFn: trusted host configuration)', trivial=True)
+                continue
+            if not is_fv and _host_operator_table_call(mod, func, call, callee):
+                chk.ok('C05.W', f'{fname}: {norm(call)[:60]} calls an entry of a module-level table of host operator functions (not a script function value)', trivial=True)
                 continue
             if not is_fv:
                 chk.unrec('C05.W', f'{fname}: dynamic call {norm(call)[:80]} is neither a function value call f(args, options) nor a known option callback (origins: {origins[:120]})', mod.rel)
